@@ -14,6 +14,13 @@ CLAIMS = {
             "independence, and that rebuild feeds both quads and graph identities. It does not decide abstract-set equality "
             "over operation histories.",
             "MIR abstract interpretation of nested-map navigation + writer-set/lock-step/dominance rules"),
+    "C15": ("DESIGN.md §4 C15",
+            "Decides, for all call sequences, the structural facts the bijection rests on: workspace-wide writer sets of "
+            "the (public) dictionary and quoted-store fields, lock-step of the two maps with a pre-increment counter that is "
+            "advanced on every inserting path and guarded against the quoted-id range, the start value of every fresh "
+            "QuotedTripleStore, and (taint) that union passes every identifier of the other database through the "
+            "re-encoder into a clone of self's dictionary. Bijectivity itself follows by induction that is not mechanised.",
+            "MIR writer-set, dominance/guard and taint rules"),
 }
 
 NA = {
